@@ -24,7 +24,7 @@ ID = "C14"
 LEVEL = "exploration"
 RULE = (
     "alphabet = {fitA, fitB, fitBo(overwrite), is, smc, E (enter auto_checkpoint(file1)), E2 (enter nested auto_checkpoint(file2)), X (leave), R "
-    "(resume_from_file(file1)), smc2 / fitB2 (explicit checkpoint_path=file2 whatever context is active)}; all valid sequences up to length 3 (quick) / 4 "
+    "(resume_from_file(file1)), smc2 / fitB2 (explicit checkpoint_path=file2 whatever context is active), is0 / fit0 (no file named: outside a context only the object's state changes)}; all valid sequences up to length 3 (quick) / 4 "
     "(thorough) plus seeded random and structured (outer context - nested refit - outer sampling) sequences up to length 12; operations outside a context pass the path explicitly. non-trivial = sequence containing >=1 SMC run and >=1 later operation touching the same file; "
     "distinct = the sequence itself"
 )
@@ -35,7 +35,8 @@ ASSUMPTIONS = [
 REQUIRED_COUNTERS = ["sequences", "operations", "file_probes_with_checkpoint", "final_resumes"]
 EXHAUSTIVE = lambda tier: True  # noqa: E731
 
-TOKENS = ["fitA", "fitB", "fitBo", "is", "smc", "E", "E2", "X", "R", "smc2", "fitB2"]
+TOKENS = ["fitA", "fitB", "fitBo", "is", "smc", "E", "E2", "X", "R", "smc2", "fitB2", "is0", "fit0"]
+# is0 / fit0: the operation names no file at all (outside a context it touches no file and only changes the object's state)
 # smc2 / fitB2: the operation names file2 explicitly (checkpoint_path=...), whatever context is active
 
 
@@ -56,11 +57,11 @@ def valid(seq):
             depth -= 1
         elif tok.startswith("fit"):
             fitted = True
-            has_file = has_file or tok != "fitB2" or depth > 0
-        elif tok in ("is", "smc", "smc2"):
+            has_file = has_file or tok not in ("fitB2", "fit0") or depth > 0
+        elif tok in ("is", "smc", "smc2", "is0"):
             if not fitted:
                 return False
-            has_file = has_file or tok != "smc2" or depth > 0
+            has_file = has_file or tok not in ("smc2", "is0") or depth > 0
         elif tok == "R":
             if depth != 0 or not has_file:
                 return False
@@ -96,6 +97,10 @@ def cases(tier, seed):
             # structured: a checkpointed run, rebuild from the file, refit on the rebuilt instance, sample again
             pre = [TOKENS[i] for i in g.integers(0, 5, int(g.integers(0, 2)))]
             seq = [str(g.choice(["fitA", "fitB"]))] + pre + ["smc", "R"] + [str(g.choice(["fitB", "fitA", "fitBo", "fitB2"]))] + [str(g.choice(["smc", "is", "smc2"]))] + [TOKENS[i] for i in g.integers(0, 5, int(g.integers(0, 2)))]
+        if tries % 4 == 3:
+            # structured: a checkpointed run, then operations on the object that name no file, then an operation on the file again
+            mid = [str(x) for x in g.choice(["is0", "fit0"], size=int(g.integers(1, 3)))]
+            seq = [str(g.choice(["fitA", "fitB"])), "smc"] + mid + [str(g.choice(["fitA", "fitB", "fitBo", "is", "E"]))] + [TOKENS[i] for i in g.integers(0, len(TOKENS), int(g.integers(0, 3)))]
         if valid(seq) and ("smc" in seq or "smc2" in seq):
             extra.append(seq)
     per = 12
@@ -216,6 +221,10 @@ def run_sequence(seq, g, counters, viol):
                 ctx_paths.pop()
             elif tok == "fitB2":
                 a.fit(data["B"], checkpoint_path=f2)
+            elif tok == "fit0":
+                a.fit(data["B"])
+            elif tok == "is0":
+                a.sample_posterior(10, sampler="importance")
             elif tok == "smc2":
                 res = smcrun.run(a, 10, "smc", dict(smc_kw, rng=np.random.default_rng(int(g.integers(2**31))), checkpoint_path=f2), max_calls=500)
                 if res.exc is not None:
